@@ -1,7 +1,9 @@
 package main
 
 import (
+	"errors"
 	"sync"
+	"time"
 
 	soy "github.com/robfig/soy"
 	"github.com/robfig/soy/template"
@@ -21,12 +23,20 @@ type ccEntry struct {
 	err error
 }
 
-func compileBundle(fs []srcFile) (*template.Registry, error) {
-	b := soy.NewBundle()
-	for _, f := range fs {
-		b.AddTemplateString(f.name, f.content)
+func compileBundle(fs []srcFile) (reg *template.Registry, err error) {
+	switch guarded(10*time.Second, func() {
+		b := soy.NewBundle()
+		for _, f := range fs {
+			b.AddTemplateString(f.name, f.content)
+		}
+		reg, err = b.Compile()
+	}) {
+	case "HANG":
+		return nil, errHang
+	case "PANIC":
+		return nil, errors.New("PANIC in Bundle.Compile")
 	}
-	return b.Compile()
+	return
 }
 
 func compileCached(enc string) (*template.Registry, error) {
